@@ -1,5 +1,6 @@
 """GROW-1..6 and AFF-1..3 (DESIGN appendix A.2, E7) — property C09 (GROW-1/4 also serve C18)."""
 import itertools
+import re
 from flow import *
 from mir import roots_of, data_deps, DefUse, Place, Operand
 from rules_par import find_call, unwrap_aggs
@@ -44,8 +45,16 @@ def run(prog, R):
     # who may change the capacity: only a function that asks the policy (wherever it lives: a growth helper shared by both readers is fine)
     for g in G:
         asks = bool(find_call(g, 'policy::BufPolicy::grow_to'))
-        R.add('GROW-1', g, 'reserve-only-where-the-policy-is-asked', asks, site(g, g.span['lo']),
-              'BufReader::reserve is called in a function that %s BufPolicy::grow_to' % ('calls' if asks else 'does NOT call'))
+        # ... or asks it through a private function whose result reaches the reserve call (`let wanted = self.next_capacity(cur)?`)
+        via = None
+        if not asks:
+            du_ = DefUse(g)
+            for _, rt in find_call(g, 'buffer_redux::BufReader::reserve'):
+                for d in data_deps(g, rt.args[1], du_):
+                    if d[0] == 'call' and prog.local_callee_body(d[1].callee) is not None and find_call(prog.local_callee_body(d[1].callee), 'policy::BufPolicy::grow_to'):
+                        via = prog.local_callee_body(d[1].callee)
+        R.add('GROW-1', g, 'reserve-only-where-the-policy-is-asked', asks or via is not None, site(g, g.span['lo']),
+              'BufReader::reserve is called in a function that %s BufPolicy::grow_to%s' % ('calls' if asks else 'does NOT call', (' itself, but the amount derives from %s, which does' % via.key) if via is not None else ''))
     for b in prog.bodies.values():
         if is_derive(b):
             continue
@@ -141,6 +150,9 @@ def run(prog, R):
                    if prog.local_callee_body(t.callee) is g]
         if not callers:
             R.add('GROW-4', g, 'callers', False, site(g, g.span['lo']), 'growth function has no caller')
+        if any(prog.local_callee_body(tt.callee) in C for _, tt in g.calls()):
+            # growth and compaction are decided in one function (the growth is not a function of its own): judge the reserve call there
+            callers = [(g, blk, t) for blk, t in find_call(g, 'buffer_redux::BufReader::reserve')]
         for (b, blk, t) in callers:
             du = DefUse(b)
             allowed_edges = set()
@@ -204,7 +216,52 @@ def run(prog, R):
             # as a compaction function: not judged
             helper_other = blk not in seen and kinds == {'flag', 'start==0'} and not (bool(comp) and any(c in seen for c in comp)) and any(
                 prog.local_callee_body(tt.callee) is not None and x in seen for x, tt in b.calls() if prog.local_callee_body(tt.callee) is not g)
-            R.add('GROW-4', b, 'growth-guard', ok, site(b, t.line), undecided=(not ok) and helper_other, detail=
+            path_note = ''
+            if not ok and blk in seen and bool(comp):
+                # the guard may be a computed boolean (`let can_move = flag && start != 0; if can_move {compact} else {grow}`):
+                # decide per path - every path that reaches the growth call has taken "flag false" or "record start == 0"
+                from scev import Sym as _Sym, Aff as _Aff
+                loops_ = b.cfg.natural_loops()
+                hs_ = [h for h, bl in loops_.items() if blk in bl]
+                start_ = min(hs_, key=lambda h: len(loops_[h])) if hs_ else 0
+                flags_ = set(l for l in range(1, b.arg_count + 1) if b.local_tys[l] == 'bool')
+                npaths = nguard = 0
+                carried = False
+                for pth in _Sym(prog, b).run(start_, stops={start_}):
+                    if blk not in pth.blocks:
+                        continue
+                    npaths += 1
+                    before = set(pth.blocks[:pth.blocks.index(blk)])
+                    guarded = False
+                    for (x_, d_, tk_) in pth.conds:
+                        s_ = d_.single() if isinstance(d_, _Aff) and x_ in before else None
+                        if not isinstance(s_, tuple):
+                            continue
+                        if s_[0] == 'H' and s_[1] in flags_ and tk_ == 0:
+                            guarded = True
+                        if s_[0] == 'cmp' and isinstance(s_[2], _Aff) and isinstance(s_[3], _Aff):
+                            a_, c_ = s_[2], s_[3]
+                            zero_first = a_.is_const() and a_.c == 0
+                            other_ = c_ if zero_first else a_
+                            if (zero_first or (c_.is_const() and c_.c == 0)) and re.search(r'buf_pos(\.pos)?\.(start|0)$', repr(other_)):
+                                truth = (tk_ != 0) if tk_ is not None else True
+                                eq = {('Eq', False): True, ('Eq', True): True, ('Ne', False): False, ('Ne', True): False,
+                                      ('Gt', False): False, ('Lt', True): False, ('Le', False): True, ('Ge', True): True}.get((s_[1], zero_first))
+                                if eq is not None and truth == eq:
+                                    guarded = True
+                    nguard += guarded
+                    if not guarded and any(isinstance(d_, _Aff) and isinstance(d_.single(), tuple) and d_.single()[0] == 'H' and d_.single()[1] > b.arg_count
+                                           and b.local_tys[d_.single()[1]] == 'bool' and x_ in before for (x_, d_, tk_) in pth.conds):
+                        carried = True
+                if npaths and nguard < npaths and carried:
+                    # the decision is kept in a flag that lives across the iterations of the loop (`shift_pending`): whether it implies
+                    # the guard is an invariant of the loop, not a property of one path
+                    helper_other = True
+                    path_note = ' - the growth is decided by a boolean carried around the loop: not judged'
+                if npaths and nguard == npaths:
+                    ok = any(c in seen for c in comp)
+                    path_note = ' - decided per path: all %d paths to the growth call pass "flag false" or "record start == 0"' % npaths
+            R.add('GROW-4', b, 'growth-guard', ok, site(b, t.line), undecided=(not ok) and helper_other, detail=path_note +
                   'growth call reachable without (flag false | record start == 0): %s; guards found: %s; compaction on the other branch: %s'
                   % (blk in seen, sorted(kinds), bool(comp) and any(c in seen for c in comp)))
     R.floor('GROW-4', 2)
